@@ -310,6 +310,6 @@ CLAUSES = [
            space='hand-written sources with hand-derived expected trees (precedence, associativity, suffixes, TTC arithmetic, multiplicities)'),
     Clause('shipped-languages', check_roundtrip, kind='exhaustive', enumerate=_shipped, shards={'quick': 4, 'thorough': 4},
            space='coreLang and its union variant from the shipped .mar files (reference compiler output), single file and split over 4 files'),
-    Clause('roundtrip', check_roundtrip, kind='random', strategy=roundtrip_cases, budget={'quick': 700, 'thorough': 10000}),
-    Clause('layouts', check_roundtrip, kind='random', strategy=layout_cases, budget={'quick': 300, 'thorough': 4000}),
+    Clause('roundtrip', check_roundtrip, kind='random', strategy=roundtrip_cases, budget={'quick': 2500, 'thorough': 20000}),
+    Clause('layouts', check_roundtrip, kind='random', strategy=layout_cases, budget={'quick': 1000, 'thorough': 8000}),
 ]
